@@ -8,7 +8,7 @@ from concurrent.futures import ThreadPoolExecutor
 
 from .common import Check, Item, main_wrapper, run_native, run_parallel
 from .frames_common import sample_files
-from ..specs import context as C, loops_gen as LG, registry as SR, lexer as SL
+from ..specs import context as C, loops_gen as LG, registry as SR, lexer as SL, primaries as PR
 from ..frames import scan
 from ..bounded import programs as P
 
@@ -103,19 +103,37 @@ def run(tier, seed, replay):
     chk.run_contract(E, SR.registry_run())
     return_shapes(chk)
     lexer_exc = raise_sites(chk)
+    # main-loop variant: every primary that matches consumes at least one token (19 progress
+    # contracts, each verified against the contracts of the helpers it calls)
+    ud = SR.udef_typedef()
+    E.contracts[ud.key] = ud
+    chk.run_contract(E, ud)
+    for c in [SR.block_start(), SR.block_end()] + SR.simple_primaries():
+        chk.run_contract(E, c)
+    fd, cff = SR.func_declaration()
+    E.contracts[cff.key] = cff
+    chk.run_contract(E, fd)
+    run_parallel(chk, PR.jobs(chk.repo), PR.INSTALLS, procs=12)
 
     # ---- (b) generated loop obligations
     E2 = chk.engine()
     SR.install(E2)
     E2.contracts[sn.key] = sn
-    assumed = LG.assumed_helper_contracts()
-    for c in assumed:
+    # call-site contracts of the cursor helpers: the ones verified against their bodies below
+    # (run_parallel over specs/primaries.py)
+    helpers = PR.helper_contracts()
+    for c in helpers.values():
         E2.contracts.setdefault(c.key, c)
     t0 = time.time()
     sites = LG.loop_sites(chk.repo)
     nskip = 0
     hang_replay = {"op": "one", "text": "f(a)\n", "name": "a.c"}
+    covered = PR.covered_loops(chk.repo)
+    ncovered = 0
     for s in sites:
+        if (f"{s['file']}:{s['cls'].name}.{s['fn'].name}", s["node"].lineno) in covered:
+            ncovered += 1           # its variant is an obligation of the function's contract (above)
+            continue
         for name, status, detail in LG.analyse(E2, s):
             if status == "skipped":
                 nskip += 1
@@ -198,9 +216,13 @@ def run(tier, seed, replay):
         chk.report_violation(f"C05.pipeline.crash[{exc}@{site}]", rp, what=v["what"], confirmed=True)
     chk.assumptions += [
         "termination: a forward cursor loop with exit_at_eof and progress runs at most len(tokens) iterations; loops "
-        "whose guard does not read the cursor (%d of %d) are not covered by a generated obligation" % (nskip, len(sites)),
-        "assumed (unverified) call-site contracts of cursor helpers: " + ", ".join(c.key.split(".")[-1] for c in assumed)
-        + " -- each returns an index not before its argument and is pure",
+        "whose guard does not read the cursor (%d of %d) are not covered by a generated obligation; %d loops are "
+        "covered by the variant in their function's contract instead" % (nskip, len(sites), ncovered),
+        "the generated loop obligations use the call-site contracts of the cursor helpers ("
+        + ", ".join(sorted(helpers)) + "), each verified against its body in this run",
+        "the progress contracts assume: IDENTIFIER tokens carry their spelling (lexer fact); IsEmptyLine runs before "
+        "IsControlStatement / IsAmbiguousDeclaration and matches exactly the blank lines; IsExpressionStatement runs "
+        "with a non-empty history; termination of the #if expression parser rests on CPython's recursion limit",
         "exception freedom of the rule bodies is NOT proved: bounded stand-in (prefixes / edits of sample files); crash "
         "sites already present in the pinned tree are known findings, identified by exception type and raising function",
         "the witness loops (CheckCommentLineLen, CheckPreprocessorDefine, CheckPreprocessorInclude) terminate because "
